@@ -18,17 +18,37 @@ def ctor_field_of_param(prog: Program, ci: ClassInfo) -> Dict[str, str]:
     if init is None:
         return out
     params = {p.arg for p in init.params[1:]}
+    def one(tg: ast.expr, v: ast.expr) -> None:
+        if isinstance(tg, (ast.Tuple, ast.List)) and isinstance(v, (ast.Tuple, ast.List)) and len(tg.elts) == len(v.elts):
+            for t_, v_ in zip(tg.elts, v.elts):      # self._a, self._b = a, b
+                one(t_, v_)
+            return
+        if isinstance(tg, ast.Attribute) and isinstance(tg.value, ast.Name) and tg.value.id == 'self':
+            names = [v.id] if isinstance(v, ast.Name) else \
+                [x.id for x in ast.walk(v) if isinstance(x, ast.Name)] if isinstance(v, (ast.BoolOp, ast.IfExp)) else []
+            for nm in names:
+                if nm in params and nm not in out:
+                    out[nm] = tg.attr
     for st in walk_own(init.node):
         if isinstance(st, ast.Assign) and len(st.targets) == 1:
-            tg = st.targets[0]
-            if isinstance(tg, ast.Attribute) and isinstance(tg.value, ast.Name) and tg.value.id == 'self':
-                v = st.value
-                names = [v.id] if isinstance(v, ast.Name) else \
-                    [x.id for x in ast.walk(v) if isinstance(x, ast.Name)] if isinstance(v, (ast.BoolOp, ast.IfExp)) else []
-                for nm in names:
-                    if nm in params and nm not in out:
-                        out[nm] = tg.attr
+            one(st.targets[0], st.value)
+        elif isinstance(st, ast.AnnAssign) and st.value is not None:
+            one(st.target, st.value)
     return out
+
+
+class _G:
+    """A condition under which a member is written: a dominating branch edge or an expression-level condition."""
+    def __init__(self, cond: ast.expr, pol: bool, edge=None):
+        self.cond, self.pol, self.edge = cond, pol, edge
+        self.label = 'T' if pol else 'F'
+
+    class _S:
+        def __init__(self, a):
+            self.ast = a
+    @property
+    def src(self):
+        return _G._S(self.cond)
 
 
 def check_wire_shape(prog: Program, f: FuncInfo, spec: Dict[str, Tuple[str, str]]) -> Tuple[List[Tuple[str, str, int]], int]:
@@ -63,7 +83,7 @@ def check_wire_shape(prog: Program, f: FuncInfo, spec: Dict[str, Tuple[str, str]
             problems.append((f'member {k!r} missing', f'wire form never writes member {k!r}', f.node.lineno))
             continue
         for w in ws:
-            guards = guard_edges(cfg, w.node)
+            guards = [_G(g.src.ast, g.label == 'T', g) for g in guard_edges(cfg, w.node)] + [_G(c_, p_) for c_, p_ in w.extra]
             if mode in ('const', 'always'):
                 if guards or cfg.exit.id in cfg.reachable(cfg.entry, avoid_nodes=[w.node],
                                                           edge_ok=lambda e: e.label != 'exc'):
@@ -80,7 +100,7 @@ def check_wire_shape(prog: Program, f: FuncInfo, spec: Dict[str, Tuple[str, str]
                     fld = fields.get(arg)
                     if fld is None:
                         raise AnalysisError(f'{ci.qualname}.__init__: no attribute stores parameter {arg!r}')
-                    if w.value is None or not _reads_field(prog, ci, w.value, fld):
+                    if w.value is None or not _reads_field(prog, ci, w.value, fld, cfg, w.node):
                         problems.append((f'member {k!r} value', f'member {k!r} must carry the {arg!r} the object was built with, '
                                          f'found {norm(w.value) if w.value is not None else "?"}', w.node.line))
             elif mode in ('iff-not-none', 'iff-truthy'):
@@ -116,9 +136,9 @@ def check_wire_shape(prog: Program, f: FuncInfo, spec: Dict[str, Tuple[str, str]
                 elif ok_edge is None:
                     problems.append((f'member {k!r} guard', f'member {k!r} must be written iff {arg!r} is '
                                      f'{"not None" if mode == "iff-not-none" else "non-empty"}; no such guard dominates the write', w.node.line))
-                elif not edge_postdominated_by(cfg, ok_edge, [w.node]):
+                elif ok_edge.edge is not None and not edge_postdominated_by(cfg, ok_edge.edge, [w.node]):
                     problems.append((f'member {k!r} guard', f'member {k!r}: a path on which it should be written reaches the return without it', w.node.line))
-                if w.value is not None and not _reads_field(prog, ci, w.value, fld):
+                if w.value is not None and not _reads_field(prog, ci, w.value, fld, cfg, w.node):
                     problems.append((f'member {k!r} value', f'member {k!r} must carry the {arg!r} the object was built with, '
                                      f'found {norm(w.value)}', w.node.line))
             else:  # iff-set
@@ -148,11 +168,11 @@ def check_wire_shape(prog: Program, f: FuncInfo, spec: Dict[str, Tuple[str, str]
                 elif ok_edge is None:
                     problems.append((f'member {k!r} guard', f'member {k!r} must be written iff {arg!r} is set '
                                      f'(identity test against UNSET); no such guard dominates the write', w.node.line))
-                elif not edge_postdominated_by(cfg, ok_edge, [w.node]):
+                elif ok_edge.edge is not None and not edge_postdominated_by(cfg, ok_edge.edge, [w.node]):
                     problems.append((f'member {k!r} guard', f'member {k!r}: a path on which {arg!r} is set reaches the '
                                      f'return without writing it', w.node.line))
                 if w.value is not None and not bad and ok_edge is not None:
-                    if not _reads_field(prog, ci, w.value, fld):
+                    if not _reads_field(prog, ci, w.value, fld, cfg, w.node):
                         problems.append((f'member {k!r} value', f'member {k!r} must carry the {arg!r} the object was built with, '
                                          f'found {norm(w.value)}', w.node.line))
     return problems, n_ob
@@ -169,9 +189,20 @@ def _is_getter_of(prog: Program, ci: ClassInfo, subject: Optional[str], fld: str
     return bool(rets) and all(st.value is not None and dotted(st.value) == f'self.{fld}' for st in rets)
 
 
-def _reads_field(prog: Program, ci: ClassInfo, value: ast.expr, fld: str) -> bool:
-    """value is `self.<fld>`, a getter that returns it, or `<that>.to_json()`."""
+def _reads_field(prog: Program, ci: ClassInfo, value: ast.expr, fld: str, cfg: Optional[CFG] = None, node=None) -> bool:
+    """value is `self.<fld>`, a getter that returns it, or `<that>.to_json()` (through locals)."""
     v = value
+    if cfg is not None and node is not None:
+        from ..flow import Flow
+        fl = Flow(cfg)
+        base = v.func.value if (isinstance(v, ast.Call) and isinstance(v.func, ast.Attribute) and v.func.attr == 'to_json' and not v.args) else v
+        if isinstance(base, ast.Name):
+            al = fl.alts(node, base)
+            if len(al) == 1 and not isinstance(al[0].expr, ast.Name):
+                if base is v:
+                    v = al[0].expr
+                else:
+                    v = ast.Call(func=ast.Attribute(value=al[0].expr, attr='to_json', ctx=ast.Load()), args=[], keywords=[])
     if isinstance(v, ast.Call) and isinstance(v.func, ast.Attribute) and v.func.attr == 'to_json' and not v.args:
         v = v.func.value
     if isinstance(v, ast.Call) and isinstance(v.func, ast.Attribute) and not v.args:   # self.get_error()
